@@ -8,7 +8,8 @@
    [reorderings], [binom], [mchoose] are specifications (C15/Combination.v, TopoSpec.v). *)
 From Coq Require Import List ZArith Permutation.
 From TskVerif Require Import Base.Common C15.Combination C15.Partitions C15.RankTree
-  C15.TopoSpec C15.CombProofs C15.CombRankProofs C15.WRProofs C15.RankTreeBounded.
+  C15.TopoSpec C15.CombProofs C15.CombRankProofs C15.WRProofs C15.RankTreeBounded
+  C15.PartitionProofs C15.OorProofs C15.ChildOrderProofs.
 Import ListNotations.
 Open Scope Z_scope.
 
@@ -77,13 +78,31 @@ Proof. exact wr_unrank_total. Qed.
 Theorem wr_unrank_oor_refuted : mchoose 1 1 = 1%nat /\ with_replacement_unrank 5 1 1 = Some [5].
 Proof. exact wr_unrank_oor_not_rejected. Qed.
 
+(* ---- (c) rule_asc / partitions ----
+   the specification list holds exactly the ascending compositions of n, each once
+   (unbounded); rule_asc equals it for 1 <= n <= 30 (bounded, by evaluation).
+   Unbounded statement (not proved): forall n >= 1, rule_asc n = Ok (asc_compositions n). *)
+Theorem asc_compositions_are_all : forall n c, 1 <= n ->
+  (In c (asc_compositions n) <-> (nondecr_from 1 c /\ zsum' c = n /\ c <> [])).
+Proof. exact asc_compositions_spec. Qed.
+
+Theorem asc_compositions_once : forall n, NoDup (asc_compositions n).
+Proof. exact asc_compositions_NoDup. Qed.
+
+Theorem rule_asc_complete_bounded : forall n, 1 <= n <= 30 -> rule_asc n = Ok (asc_compositions n).
+Proof. exact PartitionProofs.rule_asc_complete_bounded. Qed.
+
+Theorem partitions_bounded : forall n, 1 <= n <= 30 ->
+  partitions n = Ok (removelast (asc_compositions n)).
+Proof. exact PartitionProofs.partitions_bounded. Qed.
+
 (* ---- (d) RankTree, bounded: the bound on the number of leaves is in the statement ----
    Unbounded statements (not proved; kept for reference):
      unrank_then_rank      : forall n >= 2 (and n = 1 with s = 0), s < num_shapes n,
                              l < num_labellings n s: tree_rank (tree_unrank n s l) = (s,l)
      rank_then_unrank      : forall n, is_topology n t -> tree_unrank n (tree_rank t) ~ t
      all_trees_enumerates  : forall n, all_trees n lists {t | is_topology n t} once, in rank order
-     rank_child_order_invariant : forall t t', t' a reordering of t -> tree_rank t' = tree_rank t *)
+   (rank_child_order_invariant IS proved unboundedly, below.) *)
 Theorem unrank_then_rank_bounded : forall n s l S N,
   1 <= n <= 6 -> num_shapes n = Ok S -> 0 <= s < S ->
   num_labellings n s = Ok N -> 0 <= l < N ->
@@ -109,8 +128,25 @@ Theorem rank_child_order_invariant_bounded : forall n t t',
   exists r, tree_rank t = Ok r /\ tree_rank t' = Ok r.
 Proof. exact RankTreeBounded.rank_child_order_invariant_bounded. Qed.
 
+(* rank invariance under child order, UNBOUNDED: [pt_reorder t t'] = t' is t with the
+   children of any nodes listed in another order; leaf labels pairwise distinct.  (Branch
+   lengths and internal node ids do not exist in [pt]: Tree.rank reads neither; this
+   abstraction is what the rank_invariance family checks on real tskit Trees.) *)
+Theorem rank_child_order_invariant : forall t t' r,
+  pt_reorder t t' -> NoDup (pt_leaves t) -> tree_rank t = Ok r -> tree_rank t' = Ok r.
+Proof. exact ChildOrderProofs.rank_child_order_invariant. Qed.
+
 (* ---- (e) out-of-range ranks: F13 ---- *)
 Theorem unrank_oor_n1_refuted :
   exists s, num_shapes 1 = Ok 1 /\ s >= 1 /\
             tree_unrank 1 s 0 = Ok (PL 0) /\ tree_rank (PL 0) = Ok (0, 0).
 Proof. exact unrank_oor_n1_refuted_w. Qed.
+
+(* for every n >= 2 an out-of-range shape rank is rejected (unbounded in n, s, l) *)
+Theorem unrank_oor_shape_rejected : forall n nS s l,
+  2 <= n -> num_shapes n = Ok nS -> nS <= s -> 0 <= nS -> 0 <= l ->
+  tree_unrank n s l = Err E_RANK.
+Proof. exact tree_unrank_shape_oor. Qed.
+
+Theorem unrank_negative_rejected : forall n s l, s < 0 \/ l < 0 -> tree_unrank n s l = Err E_RANK.
+Proof. exact tree_unrank_negative. Qed.
